@@ -184,6 +184,11 @@ func (s c16Shape) build(side string, log *c16Log) (flat []int, hopts []connect.H
 		copts = append(copts, wrapC(opts[oi], n))
 		oi++
 	}
+	if s.empties&(1<<len(s.groups)) != 0 {
+		// an empty group after everything else
+		hopts = append(hopts, connect.WithInterceptors())
+		copts = append(copts, connect.WithInterceptors())
+	}
 	if s.merge {
 		hopts = []connect.HandlerOption{connect.WithHandlerOptions(hopts...)}
 		copts = []connect.ClientOption{connect.WithClientOptions(copts...)}
@@ -286,9 +291,9 @@ func c16(run *ev.Run) int {
 				for ni, nest := range nestings {
 					s := c16Shape{pattern: pattern, groups: comp, nest: nest}
 					shapes = append(shapes, s)
-					if ni%3 == 0 && g > 0 {
+					if ni%3 == 0 {
 						s2 := s
-						s2.empties = 1 + r.Intn(1<<g-0)
+						s2.empties = 1 + r.Intn(1<<(g+1)-1)
 						shapes = append(shapes, s2)
 					}
 					if ni%4 == 1 {
